@@ -34,6 +34,11 @@ func runC01(r *engine.Run) {
 	r.Rule("DEP-valuestored", "in insertAtNode and insertAfterPathTraversal every path to a success return passes a call that receives the value being inserted (SetValue, insertLeaf, NewFullNode, the recursive insert)")
 	r.Rule("DEP-rehome", "a clone of a child that replaces its vanished parent (moved one or more levels up) has its Path reassigned before it is inserted, a leaf also its Prefix")
 	r.Rule("DOM-rootinstalled", "every success return of Insert and Delete that follows a trie walk is dominated by setRoot")
+	r.Rule("AGREE-childslot", "in the trie operations a child key produced by a call that was given the path remainder P[l:] is filed with PutChild under slot P[l-1] of the same path P, and a child key read with GetChild(P[l-1]) is walked (directly or after getNode) with remainder P[l:]: the path element that selects a slot is exactly the one the remainder skips")
+	r.Rule("DOM-keymatch", "the walks decide 'this node is the entry for the key' only under the comparison that establishes it: the lookup returns a leaf's value only where leaf path == remaining path tested true and a branch's own value only where len(path) == 0; deleteAtNode removes, and insertAtNode overwrites in place, the leaf at the position only where path == leaf path tested true; every walk below an extension (insert, delete, the lookup's recursion after getNode of the extension's NodeKey) is reached only where the extension's path tested equal to the path or to the matching prefix of both, and continues with exactly the rest of the path")
+	r.Rule("AGREE-mergepath", "when delete removes the node between two path-carrying nodes the lower one moves up with path = what the vanished node consumed ++ its own whole path: the store to Path of a clone in deleteAtNode/liftOnlyChild is, piece by piece (symbolic evaluation through concat, append chains, literals and conditional extensions), the position extension's whole path or one slot element followed by the whole path of the node that moves up; an extension that adopts its child extension's NodeKey gets the fused path in the same step")
+	r.Rule("DOM-childcount", "a branch is dissolved only under the child count that justifies it: liftOnlyChild is called where GetNumChildren() of the position tested equal to 1 plus the number of children cleared on the copy handed to it; the branch is removed, or turned into a leaf carrying its value, only where the count tested 1")
+	r.Rule("DOM-valueat", "in insertAtNode a value is stored on a newly built branch only where the key it belongs to ends there: the payload where matching prefix == path tested true, the split leaf's value where matching prefix == leaf path tested true or the leaf's path is empty")
 	r.NotDec = append(r.NotDec, "that lookups return the last stored value for every history (path arithmetic, slicing, which child is lifted)", "hex validation of Insert/Delete paths (outside the property's quantifier)")
 	exhU(r)
 	domSize(r)
@@ -50,6 +55,11 @@ func runC01(r *engine.Run) {
 	depValueStored(r, "DEP-valuestored")
 	depRehome(r, "DEP-rehome")
 	domRootInstalled(r, "DOM-rootinstalled")
+	agreeChildSlot(r, "AGREE-childslot")
+	domKeyMatch(r, "DOM-keymatch")
+	domValueAt(r, "DOM-valueat")
+	agreeMergePath(r, "AGREE-mergepath")
+	domChildCount(r, "DOM-childcount")
 }
 
 var nodeKinds = []string{"ExtensionNode", "FullNode", "LeafNode"}
